@@ -206,6 +206,32 @@ CLAIMS["C08"] = dict(
     design_ref="DESIGN.md 5 (C08), B.5", technique=TECH,
     note=TRUST + "; str.split / str.format / json.dumps / jinja2 are library behaviour (tier A); the dotted-string and dictionary "
          "notations of get_recursively, str_to_dict and format_context are bounded only")
+CLAIMS["C11"] = dict(
+    category="other",
+    text="Proof part: the routing function - get_bin_on_value / get_bin_on_value_1d return, per axis, the number of edges <= the "
+         "coordinate minus one (C06 contracts), which SplitIntoBins.fill uses to pick the cell. Bounded part (labelled): "
+         "SplitIntoBins against an independent private copy of the analysis per cell run on exactly that cell's sub-flow, "
+         "exhaustively for all 11 increasing 1-d edge lists over {0..3} with flows of length <= 3 (thorough <= 4) over inside / "
+         "border / outside coordinates, 9 2-d edge pairs, 11 analyses (incl. context-mutating and multi-result ones) x 7 "
+         "argument variables, fill/compute histories, IterateBins, MapBins, md_map, _MdSeqMap. One genuine defect repaired, one "
+         "open known finding (IterateBins on a 2-d histogram of a plain Variable).",
+    design_ref="DESIGN.md 5 (C11)", technique=TECH, note=TRUST)
+CLAIMS["C13"] = bounded_claim(
+    "Bounded: every StoreContext, UpdateContextFromStatic, MakeFilename, Write, Cache, SetContext and container of ALL trees of "
+    "Sequence / Source / Split with <= 4 nodes (thorough <= 5), depth <= 3, over 6 SetContext forms (constant, nested, "
+    "formatted, unresolvable) with all 9 probes in every gap, is compared with a pure document-order fold of the SetContext "
+    "updates written from the property text; Split copies / intersection; LenaKeyError naming the key; files actually written "
+    "by Write and Cache; no static context in run-time contexts except through UpdateContextFromStatic. Two genuine defects "
+    "repaired, three recorded as open known findings (empty Split erases the context; Source tail re-threads the context; "
+    "sibling branch after an unresolved key, depth 4). No proof obligations yet.", "DESIGN.md 5 (C13)")
+CLAIMS["C14"] = bounded_claim(
+    "Bounded: Compose(v1..vn) vs the Sequence (v1..vn) vs the fold of tagged pure getters for all chains of 1..5 variables over "
+    "3 type alphabets x 4 attribute sets x 10 value contexts (incl. pre-existing typed context.variable), Combine of 1..4, "
+    "chains with untyped variables, nested Compose / Combine, keyword arguments; data, same context, name / attributes / type "
+    "of the resulting variable, attributes of every composed variable under its type, compose in application order, frame "
+    "(context outside `variable` untouched), variables unchanged, repeated application. Two genuine defects repaired, one open "
+    "known finding (chains with untyped variables after a typed context.variable). No proof obligations yet.",
+    "DESIGN.md 5 (C14)")
 NA_REASON = "check not built yet (work in progress; see DESIGN.md section 8)"
 
 def main():
